@@ -169,6 +169,31 @@ func init() {
 		Technique: "deductive verification: typed state-stack invariant (bottom is a root state, others block states) with function-value identities, shared behavioural contract of the seven state functions applied at the dynamic dispatch in Next, push/pop postconditions per grammar unit, end-of-input report only with an empty block stack; VCs discharged by z3/cvc5",
 	})
 	registerProp(&PropSpec{
+		ID: "C09", Title: "HTML lexer recognises tags, attributes, raw text and foreign content",
+		Sel: []Sel{{Pattern: "html.Lexer.*", Levels: "SF"}, {Pattern: "html.NewLexer", Levels: "S"}, {Pattern: "html.NewTemplateLexer", Levels: "S"}, {Pattern: "html.ToHash", Levels: "SF"}, {Pattern: "html.Hash.*", Levels: "S"}},
+		NotDecided: []string{
+			"conformance of the token stream to the HTML construct grammar (one token per construct with the right type)",
+			"raw-text termination at the matching end tag and the script double-escape rules (only memory safety, the unchanged-input frame and token conservation of shiftRawText are proved)",
+			"svg/math subtrees returned as one token; 'a delimited region is never split across tokens'; HasTemplate exactly when a delimiter was crossed (only: HasTemplate implies delimiters are configured)",
+			"lower-casing of an attribute key when template delimiters are configured (proved for the plain lexer and for tag names)",
+			"completeness of the ToHash table on its ten names (soundness is proved)",
+		},
+		Technique: "deductive verification: inTag/rawTag state-machine postconditions of Next, lower-cased tag and attribute names, Text/AttrVal sub-slice and buffer-frame clauses (from C02), perfect-hash soundness, for arbitrary NUL-free template delimiters; VCs discharged by z3/cvc5",
+	})
+	registerProp(&PropSpec{
+		ID: "C06", Title: "JS tokens follow the ECMAScript lexical grammar",
+		Sel: []Sel{{Pattern: "js.Lexer.*", Levels: "SF"}, {Pattern: "js.NewLexer", Levels: "S"}},
+		NotDecided: []string{
+			"identifier tokens: Unicode ID_Start/ID_Continue classes and \\u escapes (only memory safety and progress are proved for consumeIdentifierToken)",
+			"numeric literals: the per-radix digit alphabets, separators and BigInt suffix (only the closed set of numeric token types is proved)",
+			"string and template literal grammar, template nesting via level/templateLevels (only the closed sets of result types are proved)",
+			"RegExp(): character-class and escape tracking of consumeRegExpToken (memory safety and progress only)",
+			"the converse direction for keywords (an identifier whose text is a keyword spelling never gets IdentifierToken) follows from the exact Keywords table used in the encoding but is not stated as a clause",
+			"completeness: that every token sequence of the grammar is returned as exactly those tokens (an induction over token sequences); proved instead are the per-token clauses: canonical spelling of every operator, punctuator, reserved word and contextual keyword token, longest-match before '=', the '?.' digit look-ahead rule, CommentLineTerminatorToken iff the comment contains a line terminator",
+		},
+		Technique: "deductive verification: postconditions of js.Lexer.Next and its consume* helpers against the operatorBytes/reservedWordBytes/identifierBytes/op*Tokens/Keywords tables read from the source literals; VCs from go/ssa discharged by z3/cvc5",
+	})
+	registerProp(&PropSpec{
 		ID: "C10", Title: "JSON parser accepts every valid document and reproduces it",
 		Sel: []Sel{{Pattern: "json.Parser.*", Levels: "STF"}, {Pattern: "json.NewParser", Levels: "S"}},
 		NotDecided: []string{"every document accepted by encoding/json is accepted (needs induction over the JSON grammar against the iterative state machine)"},
@@ -242,4 +267,13 @@ type FuncLevel struct {
 	Func  string
 	Level int
 	Sel   Sel
+}
+
+func sortedPropIDs() []string {
+	var ids []string
+	for id := range Props {
+		ids = append(ids, id)
+	}
+	sort.Strings(ids)
+	return ids
 }
